@@ -21,7 +21,9 @@ PushVals == {Num(2), Num(10), Str("b"), Null, Bool(TRUE)}
 FindVals == {Num(2), Str("b"), Null, Num(0), Num(1)}
 Call0(m, a) == LCall(m, a, <<>>)
 Call1(m, a, x) == LCall(m, a, <<x>>)
-Inner(y) == {Call0("pop", y), Call0("popfirst", y), Call0("length", y), Call0("sort", y), LGet(y, 0), LGet(y, -1),
+\* LGet(y, 5) reads past the end, LMiss a missing member of an object: both null, and the null that is
+\* pushed is an ordinary element (a later a[i] = v / ++a[i] changes that element and nothing else)
+Inner(y) == {Call0("pop", y), Call0("popfirst", y), Call0("length", y), Call0("sort", y), LGet(y, 0), LGet(y, -1), LGet(y, 5), LMiss,
              Call1("push", y, LLit(Num(2))), Call1("push", y, LLit(Str("b"))), Call1("contains", y, LLit(Num(2)))}
 Big ==
   {SExpr(Call1("push", a, LLit(v))) : a \in AB, v \in PushVals}
@@ -29,6 +31,7 @@ Big ==
   \cup {SExpr(Call1("contains", a, LLit(v))) : a \in AB, v \in FindVals}
   \cup {SExpr(LGet(a, i)) : a \in AB, i \in {0, 1, -1, -3}}
   \cup {SSet(a, i, Num(7)) : a \in AB, i \in {0, 2, -1, -3}}
+  \cup {SInc(a, i) : a \in AB, i \in {0, -1}}
   \cup {SExpr(Call1(m, a, x)) : m \in {"push", "contains"}, a \in AB, x \in UNION {Inner(y) : y \in AB}}
   \cup {SExpr(Call1("push", a, Call1("push", b, Call0("pop", a)))) : a, b \in AB}
   \cup {SExpr(Call1("contains", a, Call1("contains", b, Call0("length", a)))) : a, b \in AB}
@@ -38,6 +41,7 @@ Small ==
   \cup {SExpr(Call0(m, "a")) : m \in {"pop", "popfirst", "length", "sort"}}
   \cup {SExpr(Call0("popfirst", "b")), SExpr(Call0("sort", "b"))}
   \cup {SExpr(Call1("contains", "a", LLit(v))) : v \in {Num(2), Null, Num(0)}}
+  \cup {SExpr(Call1("push", "a", LGet("b", 5))), SExpr(Call1("push", "a", LGet("a", 5))), SExpr(Call1("push", "a", LMiss)), SInc("a", -1)}
   \cup {SExpr(LGet("a", -1)), SExpr(LGet("a", -3)), SSet("a", 0, Num(7)), SSet("a", 2, Num(7)), SSet("b", -1, Num(7))}
   \cup {SExpr(Call1("push", "a", Call1("push", "b", LLit(Num(2))))), SExpr(Call1("push", "b", Call0("pop", "a"))),
         SExpr(Call1("push", "a", Call0("popfirst", "a"))), SExpr(Call1("contains", "a", Call0("length", "b"))),
@@ -98,7 +102,17 @@ StepLaws(s, st, r) ==
            ELSE r.status = "ok" /\ r.res = Bool(hit # {}) /\ r.s.h = s.h),
   L("containserr", IsTop(st) /\ m = "contains" /\ r.status = "error", TRUE),
   L("get", st.op = "expr" /\ st.x.e = "get" /\ r.status = "ok",
-        LET a == s.h[Id(st.x.a)].items IN r.s = s /\ r.res = a[Norm(Len(a), st.x.i) + 1]),
+        LET a == s.h[Id(st.x.a)].items  j == Norm(Len(a), st.x.i) IN r.s = s /\ r.res = (IF j < Len(a) THEN a[j + 1] ELSE Null)),
+  \* pushing the value of a read past the end / of a missing member appends a plain null
+  L("pushabsent", st.op = "expr" /\ st.x.e = "call" /\ m = "push" /\ r.status = "ok" /\ st.x.args[1].e \in {"miss", "get"}
+                  /\ (st.x.args[1].e = "get" => Norm(Len(s.h[Id(st.x.args[1].a)].items), st.x.args[1].i) >= Len(s.h[Id(st.x.args[1].a)].items)),
+        new = Append(old, Null) /\ others),
+  L("inc", st.op = "inc" /\ r.status = "ok",
+        LET a == s.h[Id(st.a)].items
+            b == r.s.h[Id(st.a)].items
+            j == Norm(Len(a), st.i)
+        IN /\ b = [a EXCEPT ![j + 1] = Num(NumOf(a[j + 1]) + 1)] /\ r.res = b[j + 1]
+           /\ \A k \in Named \ {Id(st.a)} : r.s.h[k] = s.h[k]),
   L("neg", st.op = "expr" /\ st.x.e = "get" /\ st.x.i < 0,
         LET a == s.h[Id(st.x.a)].items IN (r.status = "error") = (Len(a) + st.x.i < 0)),
   L("set", st.op = "set" /\ r.status = "ok",
@@ -118,7 +132,7 @@ vars == <<hist, cur, sts, out, fin, law, idx>>
 
 Apply2(h, c, g, o, st, rI) ==
   LET rD == IF g["D"] # "ok" THEN ER(c["D"], Null, IF g["D"] = "wild" THEN "wild" ELSE "dead")
-            ELSE LET r == Exec(c["D"], st, TRUE) IN IF r.status = "open" \/ (r.status = "ok" /\ r.s.pe) THEN [r EXCEPT !.status = "wild"] ELSE r
+            ELSE LET r == Exec(c["D"], st, TRUE) IN IF r.status = "open" THEN [r EXCEPT !.status = "wild"] ELSE r
       eI == LExpect(rI.s, st, rI.res, rI.status, NArr)
       eD == LExpect(rD.s, st, rD.res, rD.status, NArr)
   IN [hist |-> Append(h, st),
@@ -133,7 +147,7 @@ RECURSIVE RunGiven(_, _)
 RunGiven(s, ops) ==
   IF ops = <<>> \/ s.fin THEN s
   ELSE LET rI == Exec(s.cur["I"], Head(ops), FALSE) IN
-       IF rI.status \notin {"ok", "error"} \/ rI.s.pe THEN RunGiven(s, Tail(ops))
+       IF rI.status \notin {"ok", "error"} THEN RunGiven(s, Tail(ops))
        ELSE LET t == Apply2(s.hist, s.cur, s.sts, s.out, Head(ops), rI) IN RunGiven([t EXCEPT !.law = LAll({@, s.law})], Tail(ops))
 Given == IF Mode = "given" THEN JsonDeserialize("given.json") ELSE <<>>
 
@@ -149,7 +163,6 @@ NextOp ==
   /\ \E st \in (IF Mode = "depth" THEN Small ELSE Big) :
        LET rI == Exec(cur["I"], st, FALSE) IN
        /\ rI.status \in {"ok", "error"}
-       /\ ~rI.s.pe            \* a read past the end is C09's matter (the pinned code pads the array there)
        /\ LET s == Apply2(hist, cur, sts, out, st, rI) IN
           /\ hist' = s.hist /\ cur' = s.cur /\ sts' = s.sts /\ out' = s.out /\ law' = s.law /\ fin' = s.fin
 Next == NextGiven \/ NextOp
